@@ -7,8 +7,10 @@ for n in (0, 2, 4):
     inst(P, 'c14_vec_u64_n%d' % n, 'c14::vec_u64(%d)' % n, unwind=U, tier='quick' if n in (0, 2) else 'thorough', desc='Vec<u64> len %d cut at every byte' % n, shape={'len': n}, cap=600)
     inst(P, 'c14_vec_pair_n%d' % n, 'c14::vec_pair(%d)' % n, unwind=U, tier='quick' if n == 2 else 'thorough', desc='Vec<(u64,u64)> len %d cut at every byte' % n, shape={'len': n}, cap=600)
     inst(P, 'c14_option_vec_n%d' % n, 'c14::option_vec(%d)' % n, unwind=U, tier='quick' if n == 2 else 'thorough', desc='Option<Vec<u64>> Some/None cut at every byte' , shape={'len': n}, cap=600)
-    inst(P, 'c14_skip_option_n%d' % n, 'c14::skip_option(%d)' % n, unwind=U, tier='quick' if n in (0, 2) else 'thorough', cap=900, mem=8,
-         desc='skip_option: lands exactly past an intact optional; a stream cut at any byte inside the optional is an error (inner Vec<u64> len %d)' % n, shape={'len': n})
+    inst(P, 'c14_skip_option_intact_n%d' % n, 'c14::skip_option_intact(%d)' % n, unwind=U, unwindset={r'stack_buffer_copy': 4, r'fill_with': 8 * (n + 2) + 2}, tier='quick' if n == 2 else 'thorough', cap=900, mem=8, role='skip_option intact',
+         desc='skip_option lands exactly past an intact Option<Vec<u64>> (inner len %d)' % n, shape={'len': n})
+    inst(P, 'c14_skip_option_cut_n%d' % n, 'c14::skip_option_cut(%d)' % n, unwind=U, unwindset={r'stack_buffer_copy': 4, r'fill_with': 8 * (n + 2) + 2}, tier='quick' if n in (0, 2) else 'thorough', cap=900, mem=8, role='skip_option cut',
+         desc='skip_option on a stream cut at any byte inside the optional is an error (inner Vec<u64> len %d)' % n, shape={'len': n})
 for n in (0, 7, 9):
     inst(P, 'c14_bytes_n%d' % n, 'c14::bytes(%d)' % n, unwind=U, tier='quick' if n in (7, 9) else 'thorough', desc='Vec<u8> len %d cut at every byte (incl. inside the padding)' % n, shape={'len': n}, cap=600)
     inst(P, 'c14_string_n%d' % n, 'c14::string(%d)' % n, unwind=U, tier='quick' if n == 9 else 'thorough', stubs=['utf8'], desc='String len %d (ASCII) cut at every byte' % n, shape={'len': n}, cap=600)
